@@ -199,3 +199,13 @@ Definition osc_unprotect (c : osc_sec) (assoc : option (bytes * bytes)) (o : msg
        | Some (tok, piv) => osc_unprotect_resp c tok piv o
        | None => None
        end.
+
+(* what reaches the request handler of a resource: a message carrying the OSCORE option is
+   verified (and dropped when verification fails); one without it is handed over as it is unless
+   the resource is for OSCORE only (then it is refused, 4.01) *)
+Definition osc_server_deliver (dec : osc_aead_dec) (s : osc_sec) (oscore_only : bool) (o : msg)
+    : option msg :=
+  match osc_find_opt OSC_OPT (m_opts o) with
+  | Some _ => if osc_is_request (m_code o) then osc_unprotect_req_gen dec s o else None
+  | None => if oscore_only then None else Some o
+  end.
